@@ -1,24 +1,46 @@
 #!/venv/bin/python
-"""Print the markdown table of seeded changes (from seeded/*/meta.json) for DESIGN.md."""
-import json, os, re, glob
+"""Write /verif/seeded/INDEX.md: one row per seeded change (from seeded/*/meta.json) - what was changed, how the property's
+own check reports it, which other checks report it too.  `--summary` prints per-property counts for DESIGN.md."""
+import json, os, re, glob, sys
 rows = []
-for d in sorted(glob.glob('/verif/seeded/*')):
+for d in sorted(glob.glob('/verif/seeded/C*')):
     m = json.load(open(os.path.join(d, 'meta.json')))
     name = os.path.basename(d)
     notes = m.get('breaks', '')
-    first = re.sub(r'\s+', ' ', notes.replace('#', '').strip())
-    first = re.sub(r'\*\*', '', first)[:230]
+    first = re.sub(r'\s+', ' ', notes.replace('#', '').replace('|', '/').strip())
+    first = re.sub(r'\*\*', '', first)[:260]
     own = m.get('detected_by', {}).get(m['property'], [])
     rule = ''
     if own:
         mm = re.search(r': (R-[A-Z]+): (.*)', own[0])
-        if mm:
-            rule = f"{mm.group(1)}: {mm.group(2)[:150]}"
-        else:
-            rule = own[0][:160]
+        rule = f"{mm.group(1)}: {mm.group(2)[:170]}" if mm else own[0][:180]
+    rule = rule.replace('|', '/')
+    exp = m.get('expect') or 'BREAKS'
+    verdict = {'BREAKS': 'VIOLATION', 'INCONCLUSIVE': 'INCONCLUSIVE (exit 2)', 'MISSED': 'not reported'}.get(exp, exp)
     others = [q for q in m.get('detected_by', {}) if q != m['property']]
-    rows.append((name, m['property'], first, rule, ', '.join(others)))
-print('| seed | what was changed (from the author\'s notes) | reported by the property\'s own check as | also reported by |')
-print('|------|------------------------------------------|------------------------------------------|------------------|')
-for name, pid, first, rule, others in rows:
-    print(f"| {name} | {first} | {rule} | {others or '-'} |")
+    rows.append((name, m['property'], first, verdict, rule, ', '.join(others)))
+if '--summary' in sys.argv:
+    by = {}
+    for name, pid, first, verdict, rule, others in rows:
+        b = by.setdefault(pid, [0, 0, []])
+        b[0] += 1
+        if verdict == 'VIOLATION':
+            b[1] += 1
+        else:
+            b[2].append(f"{name} ({verdict})")
+    print('| property | seeded changes | reported as VIOLATION by its own check | not reported |')
+    print('|---|---|---|---|')
+    for pid in sorted(by):
+        n, k, miss = by[pid]
+        print(f"| {pid} | {n} | {k} | {', '.join(miss) or '-'} |")
+    print(f"| all | {sum(v[0] for v in by.values())} | {sum(v[1] for v in by.values())} | |")
+else:
+    out = ['# Seeded changes', '',
+           'Each row is one source change written by a sub-agent that saw only the property text and a scratch worktree; every one keeps',
+           'the 110 tests green and comes with a demo that passes on the clean tree and fails with the change (`seeded/<id>/demo.py`).',
+           'Verdicts are those of `./vcheck <property> --repo <tree with the change>`; the thorough tier replays every patch in memory.', '',
+           '| seed | what was changed (author\'s notes) | own check | rule that fires | also reported by |', '|---|---|---|---|---|']
+    for name, pid, first, verdict, rule, others in rows:
+        out.append(f"| {name} | {first} | {verdict} | {rule or '-'} | {others or '-'} |")
+    open('/verif/seeded/INDEX.md', 'w').write('\n'.join(out) + '\n')
+    print(f"wrote /verif/seeded/INDEX.md ({len(rows)} rows)")
